@@ -14,14 +14,14 @@ RULE = ("seeded link definitions (numeric +n/-n, >/<, * orders; resname strings 
         "enumeration of injective residue assignments (pvmon.oracle.refparams). non-trivial = at least one link match "
         "expected or observed; distinct = hash of (files, graph)")
 ASSUMPTIONS = ["non-edge anchors are atoms of the reference residue (order 0) and never name atoms of their own link",
-               "attributes changed by replace (charge, mass) are never used as match constraints",
+               "a link atom is identified by the attributes the atom had when its block was copied (an atom type replaced by an earlier link is not seen by later links; [patterns] do see it)",
                "'same atoms' for the overwrite rule = same ordered atom tuple and version",
                "explicit version tags only in pure .ff force fields (an .itp finalisation rewrites them)"]
 CASE_TIMEOUT = 60
 WALL = {"quick": 900, "thorough": 7200}
 REQUIRED = {"link_matches_expected": 300, "rej_order": 100, "rej_induced": 100, "rej_resname": 50, "rej_linktype": 10,
             "rej_nonedge": 3, "rej_pattern": 5, "overrides": 5, "dangling_matches": 20, "removals": 3,
-            "replacements": 5, "inter_residue_edges_checked": 200, "library_link_matches": 2000, "libraries": 6, "node_keys_not_like_residue_ids": 500}
+            "replacements": 5, "inter_residue_edges_checked": 200, "library_link_matches": 2000, "libraries": 6, "node_keys_not_like_residue_ids": 500, "cases_with_type_replacing_links": 300}
 LINK_OPTS = {"p_remove": 0.12, "p_nonedge": 0.25, "p_pattern": 0.2, "linktypes": True, "p_edge": 0.25,
              "nres": [2, 2, 2, 3, 3, 4], "p_replace": 0.2, "p_version": 0.15, "p_attr": 0.2, "p_partial_resname": 0.2}
 
@@ -48,7 +48,13 @@ def run_case(cid, rng, workdir):
         if cid[0] == "dangling":
             case = paramcase.build(rng, profile="full", layouts=["itp_dangling"], nmin=2, nmax=8)
         else:
-            case = paramcase.build(rng, profile="full", link_opts=LINK_OPTS, max_links=5, nmin=2, nmax=7,
+            lo = LINK_OPTS
+            if rng.random() < 0.15:
+                # links that replace an atom type next to links that select atoms by type (no patterns here: those look
+                # at the current attributes and would make the outcome depend on the order of the matches)
+                lo = dict(LINK_OPTS, p_pattern=0.0, replace_atype=True, p_attr=0.6, p_replace=0.6)
+                bump(res, "cases_with_type_replacing_links")
+            case = paramcase.build(rng, profile="full", link_opts=lo, max_links=5, nmin=2, nmax=7,
                                    layouts=["ff", "ff", "ff+itp", "itp+ff", "multi"], p_shared_names=0.3)
         if rng.random() < 0.3:
             # node keys that are not numbered like the residue ids: 'relative residue order' is about ids
